@@ -180,3 +180,26 @@ pub fn show_text(b: &[u8]) -> String {
     }
     format!("b\"{}\" (len={})", s, b.len())
 }
+
+/// `h += &[u8; N]` for the chunk's length N, when N is one of the listed constants
+/// (evaluates to whether the array form was applied).
+#[macro_export]
+macro_rules! add_array {
+    ($h:expr, $chunk:expr, [$($n:literal),*]) => {{
+        let chunk: &[u8] = $chunk;
+        match chunk.len() {
+            $( $n => { let a: &[u8; $n] = chunk.try_into().unwrap(); $h += a; true } )*
+            _ => false,
+        }
+    }};
+}
+
+/// the array lengths of `add_array_std!`
+pub const ARRAY_NS: [usize; 18] = [1, 2, 3, 6, 7, 8, 9, 10, 12, 13, 14, 15, 16, 20, 21, 33, 64, 100];
+
+#[macro_export]
+macro_rules! add_array_std {
+    ($h:expr, $chunk:expr) => {
+        $crate::add_array!($h, $chunk, [1, 2, 3, 6, 7, 8, 9, 10, 12, 13, 14, 15, 16, 20, 21, 33, 64, 100])
+    };
+}
